@@ -36,7 +36,9 @@ def halo_strategy(max_np=4, max_gap=3, max_merge=3):
 def catalog_strategy(draw, max_slabs=4, max_halos=6, layouts=('box',), min_slabs=1, compressions=('none', 'none', 'zlib', 'blsc')):
     layout = draw(st.sampled_from(list(layouts)))
     nslab = 1 if layout == 'lc' else draw(st.integers(min_slabs, max_slabs))
-    start = draw(st.integers(0, 5))
+    # superslab numbers: mostly small; sometimes around the 2->3 digit step of the %03d file names or with 4 digits (every index of one
+    # catalog keeps the same digit count beyond 3, so that sorted-path order and numeric order of a directory listing agree)
+    start = draw(st.one_of(st.integers(0, 5), st.integers(0, 5), st.integers(0, 5), st.sampled_from([96, 1000, 1234, 4095])))
     steps = draw(st.lists(st.integers(1, 3), min_size=nslab, max_size=nslab))
     inds, cur = [], start
     for s in steps:
